@@ -72,6 +72,13 @@ package txt
 // ---------------------------------------------------------------------------------------------
 // block.go
 
+// ParseBlock: every slice expression stays within the text; the consumed byte count never exceeds the text.
+//@ func ParseBlock
+//@ ensures 0 <= result1 && result1 <= len(text)
+//@ ensures implies(nonnil(result0), typeis(result0, *block))
+//@ loop 1 invariant 0 <= currentLineStart && currentLineStart <= rangepos() && rangepos() <= len(text) && bytesConsumed == currentLineStart
+//@ loop 1 decreases len(text) - rangepos()
+
 //@ func (*block).SignificantLines
 //@ ensures 0 <= result1 && 0 <= result2 && result1 + result2 <= len(b.lines)
 //@ ensures same(result0, b.lines[result1:len(b.lines)-result2])
